@@ -175,7 +175,7 @@ def mon_C07(spec, st, t, seen):
     if pickle.loads(pickle.dumps(t)).cache_key != key:
         return ('unstable-pickle', 'key changes after pickling')
     rs, rt = V.roundtrip(t)
-    if rs == 'ok' and rt.cache_key != key and not spec_reserved(spec):
+    if rs == 'ok' and rt.cache_key != key:
         return ('unstable-reconstruct', 'key changes after reconstruction from cache metadata')
     # a type whose post_init canonicalises its parameter: the key is that of the task as it ends up
     tr = U.VRewrite(x=V.build(spec))
@@ -342,7 +342,7 @@ def stage_store_roundtrip(report, tier, rng, dist, prop='C09'):
             lab = Lab(storage=storage, runner_backend='serial', notebook=False)
             tasks = []
             for _ in range(40):
-                spec = V.gen_spec(rng, bad=0.0, reserved=0.0, nan=False, mixed=True)
+                spec = V.gen_spec(rng, bad=0.0, reserved=0.1, nan=False, mixed=True)
                 try:
                     raw = V.build(spec)
                     t = rng.choice(types)(x=raw)
@@ -493,7 +493,7 @@ def stage_listing(report, tier, rng, dist, prop='C09'):
             lab = Lab(storage=storage, runner_backend='serial', notebook=False)
             tasks = []
             for _ in range(rng.randint(8, 30)):
-                spec = V.gen_spec(rng, bad=0.0, reserved=0.0, nan=False, mixed=True)
+                spec = V.gen_spec(rng, bad=0.0, reserved=0.1, nan=False, mixed=True)
                 try:
                     ty = rng.choice(types)
                     tasks.append(ty(a=V.build(spec), b=None) if ty is U.V1 else ty(x=V.build(spec)))
@@ -577,7 +577,7 @@ def stage_listing(report, tier, rng, dist, prop='C09'):
     return len(terms)
 
 
-# D9 witnesses (known_findings.json): dict parameters spelling a serialised enum / task, and the real ones
+# the D9 witnesses (repaired in 6f0f3a0): dict parameters spelling a serialised enum / task, and the real ones
 WITNESSES = [
     ['enum', 'lv_universe', 'Color', 'RED'],
     ['dict', True, [[['str', '_is_enum'], ['bool', True]], [['str', '__class__'], ['str', 'lv_universe.Color']], [['str', 'name'], ['str', 'RED']]]],
